@@ -54,7 +54,7 @@ RULE = ("period cases: 1-2 limiters (period 1..60 s, quota 0..8, 25% Align()), 1
         "awaited whenever PING is answered; every run starts with long outages (quick: 2 s and 3 s, thorough: 24 of "
         "1.5-10 s REAL time, 30% with the listener closed) during which the 100 ms monitor keeps pinging in vain, followed by "
         "recovery (restart or replacement) and 10-14 requests that must all be decided by Redis again, with a HANG outage "
-        "(quick: two with 200 ms client timeouts, thorough: four short and one with the 3 s defaults: the server accepts "
+        "(quick: two with 200 ms client timeouts and one with the 3 s defaults = about 12 s for the request that runs into it, driven in a process of its own next to the others; thorough: four short and one default: the server accepts "
         "every command and never answers), with deadlines expiring while the EVAL is in flight on a healthy Redis (also 3% "
         "of the random requests) and with window-edge histories on servers one hour ahead of / behind the callers' wall "
         "clock (60% of the random period cases run on such a skewed real clock: 0, +-7 s, +-1 h, +-400 d); the server that comes back is in 40% of the recoveries a REPLACEMENT (old miniredis "
@@ -313,7 +313,7 @@ def _fixed_cases(rng, tier):
         k = 8
     else:
         spans = [2000, 3000]
-        hangs = [200, 200]
+        hangs = [200, 200, 0]
         k = 1
     cases = [_long_outage_case(rng, tier, ms) for ms in spans]
     cases += [_hang_case(rng, rto) for rto in hangs]
@@ -331,6 +331,44 @@ def generate(rng, tier, n):
         else:
             cases.append(_token_case(rng, tier))
     return cases
+
+
+def _lane(case):
+    """real-time cases run in driver processes of their own, next to the bulk of the cases"""
+    if case.get("kind") == "token":
+        hang = any(op.get("hang") for op in case["ops"])
+        if hang and not case.get("rto"):
+            return 0                      # default go-redis timeouts: ~12 s for the call that runs into the hang
+        if hang or any(op["op"] == "sleep" for op in case["ops"]):
+            return 1
+    return 2
+
+
+def drive(cases, tier):
+    import concurrent.futures as cf
+    import vlib
+    lanes = {}
+    for i, c in enumerate(cases):
+        lane = _lane(c)
+        if lane == 2 and len(cases) > 1500:
+            lane = 2 + (i % 2)            # thorough: two processes for the bulk
+        lanes.setdefault(lane, []).append(i)
+
+    def run(lane):
+        idx = lanes[lane]
+        obs, log = vlib.run_driver(GO_PKG, [cases[i] for i in idx], name="%s_%s_l%d" % (ID, tier, lane), timeout=DRIVER_TIMEOUT)
+        return lane, obs, log
+
+    out = [None] * len(cases)
+    logs = []
+    with cf.ThreadPoolExecutor(max_workers=4) as ex:
+        for lane, obs, log in ex.map(run, sorted(lanes)):
+            logs.append("[lane %d] %s" % (lane, log[-3000:]))
+            if obs is None:
+                return None, "\n".join(logs)
+            for i, o in zip(lanes[lane], obs):
+                out[i] = o
+    return out, "\n".join(logs)
 
 
 def search(rng, problems):
